@@ -943,6 +943,7 @@ def run(prog, chk, tier):
     c17.mul_add_rules(prog, chk, "C18")
     # verification of a key whose point carries a table goes through the table walk (mul_add falls back to self * a + other * b when both points have one)
     c17.mul_rules(prog, chk, "C18")
+    c17.affine_coordinate_rules(prog, chk, "C18")
     c17.two_torsion_rules(prog, chk, "C18")
     # the DER signature decoder's primitives accept exactly their identifier octets (a flipped class bit in 30 / 02 must not go unnoticed)
     from rules import c19
